@@ -33,14 +33,21 @@ class AMap:
 
 
 class AHandle:
-    def __init__(self, label):
+    def __init__(self, label, fails=()):
         self.label = label
-        self.loads = 0
+        self.loads = 0            # loads that returned
+        self.tries = 0            # invocations of the loader
+        self.fails = set(fails)   # the invocations that raise
         self.cached = False
         self.inserted = 0
 
     def access(self):
+        """an access loads iff nothing is cached; a load that raises caches nothing (the next access loads
+        again) and its exception leaves the access"""
         if not self.cached:
+            self.tries += 1
+            if self.tries in self.fails:
+                return 'raised LoadError'
             self.loads += 1
             self.cached = True
         return f'val {self.label} {self.loads}'
@@ -115,7 +122,16 @@ class Spec:
         if got == want:
             return
         g, w = got.split(), want.split()
-        if 'raised' in g or g[0] == 'op-raised':
+        if w[-2:] == ['raised', 'LoadError']:
+            sig = 'C12:failed-load-swallowed'
+            what = 'nothing is cached, so the access must load, and the exception of the loader must leave it'
+        elif g[-2:] == ['raised', 'LoadError']:
+            sig = 'C12:loaded-again-without-clear'
+            what = 'load() was invoked although a loaded resource is cached'
+        elif g[-2:-1] == ['val'] and g[-1] in ('None', 'foreign'):
+            sig = 'C12:not-the-loaded-object'
+            what = 'the access returned something no load produced'
+        elif 'raised' in g or g[0] == 'op-raised':
             sig = 'C12:access-raised'
             what = 'the access must return the cached resource without inspecting it'
         elif g[:-1] == w[:-1] and g[-1].isdigit() and w[-1].isdigit() and int(g[-1]) > int(w[-1]):
@@ -249,7 +265,9 @@ class Spec:
             for k in sorted(m.subs):
                 walk(m.subs[k], path + (k,))
         walk(root, ())
-        struct_sig = 'C11:clear-not-empty' if after_clear else 'C11:structure'
+        struct_sig = ('C11:clear-not-empty' if after_clear else
+                      'C11:rejected-assignment-changed-the-tree' if self.last_mut.startswith('rejected') else
+                      'C11:structure')
         for path in sorted(set(imaps) | set(amaps)):
             p = ':' + '/'.join(path) if path else 'the root'
             if path not in imaps:
@@ -268,7 +286,7 @@ class Spec:
             got = [dict((k, v[0]) for k, v in layers[li].items()) for li in sorted(layers)]
             if want != got:
                 sig = struct_sig
-                if not after_clear and [w for w in want[:1]] == [g for g in got[:1]]:
+                if struct_sig == 'C11:structure' and [w for w in want[:1]] == [g for g in got[:1]]:
                     sig = 'C11:shadowed-handles'
                 self.fail(sig, f'{ctx}: handles of {p} (visible scope first) must be {want}, the '
                           f'implementation has {got}')
@@ -341,7 +359,7 @@ class Spec:
             kind, obj = r
             if kind == 'handle':
                 v = obj.access()
-                return v if n == len(ks) - 1 else 'stuck'
+                return v if n == len(ks) - 1 or v.startswith('raised') else 'stuck'
             cur = obj
         return cur
 
@@ -355,13 +373,14 @@ class Spec:
             self.mdecl.append(t[1])
             return
         if t[0] == 'newhandle':
-            self.hs[t[1]] = AHandle(t[1])
+            fails = [int(x) for tok in t[3:] if tok.startswith('fail=') for x in tok[5:].split(',') if x]
+            self.hs[t[1]] = AHandle(t[1], fails)
             return
         t = t[1:]
         kind = t[0]
         if kind == 'snap' and t[2] not in self.menv:
             return self.expect('unbound', 'C11:stream', ln)
-        if kind in ('set', 'layer', 'clear', 'dump', 'getitem', 'get', 'chain') and t[1] not in self.menv:
+        if kind in ('set', 'setkey', 'layer', 'clear', 'dump', 'getitem', 'get', 'chain') and t[1] not in self.menv:
             return self.expect('unbound', 'C11:stream', ln)
         if kind in ('sdump', 'sgetitem', 'sgetattr', 'sget', 'ssetattr', 'sdelattr') and t[1] not in self.senv:
             return self.expect('sunbound', 'C17:stream', ln)
@@ -376,6 +395,16 @@ class Spec:
                 self.menv[t[1]] = r[1]
             elif got != 'bound none':
                 self.fail('C11:get', f'{ln}: get must not return a map, got `{got}`')
+        elif kind == 'setkey' or kind == 'set' and t[3][0] == 'x':
+            # a key that is not a string, a value that is neither a map nor a handle: the assignment must be
+            # refused (the exception class is left open) and must not have changed anything
+            if kind == 'setkey' and (self.hs.get(t[3]) or self.menv.get(t[3])) is None:
+                return self.expect('unbound', 'C11:stream', ln)
+            got = self.next()
+            if not got.startswith('res raised '):
+                self.fail('C11:non-resource-accepted', f'{ln}: the assignment must be refused, implementation '
+                          f'gave `{got}`')
+            self.last_mut = 'rejected ' + ' '.join(t)
         elif kind == 'set':
             v = self.hs.get(t[3]) or self.menv.get(t[3])
             if v is None:
@@ -409,10 +438,10 @@ class Spec:
         elif kind == 'stat':
             h = self.hs[t[1]]
             got = self.next()
-            want = f'stat {t[1]} loads={h.loads} cached={int(h.cached)}'
+            want = f'stat {t[1]} loads={h.loads} tries={h.tries} cached={int(h.cached)}'
             if got != want:
                 sig = ('C12:cached-raised' if 'raised' in got else
-                       'C12:load-count' if got.split()[2:3] != want.split()[2:3] else 'C12:cached')
+                       'C12:load-count' if got.split()[2:4] != want.split()[2:4] else 'C12:cached')
                 self.fail(sig, f'{ln}: required `{want}`, implementation gave `{got}`')
         elif kind == 'get':
             r = self.resolve(self.menv[t[1]], comps(t[2]))
@@ -440,10 +469,11 @@ class Spec:
                 want = f'item map {self.name_of(r[1])}'
                 ok = got.startswith('item map ') and self.same_map(r[1], got.split()[2])
             if not ok:
-                if want.startswith('item val') and (got.startswith('item val') and got.split()[2] == want.split()[2]
-                                                    or 'raised' in got and got != 'item raised KeyError'):
+                if want == 'item raised LoadError' or want.startswith('item val') and (
+                        got.startswith('item val') and got.split()[2] == want.split()[2]
+                        or 'raised' in got and got != 'item raised KeyError'):
                     self.expect_access(got, want, ln, 'C12:access-through-map')
-                    if got.startswith('item val'):
+                    if got.startswith('item val') or got == 'item raised LoadError':
                         return          # which load produced the value is C12's observable, not C11's
                 self.fail('C11:getitem', f'{ln}: required `{want}`, implementation gave `{got}`')
         elif kind == 'chain':
@@ -463,11 +493,16 @@ class Spec:
                 want = 'item ' + r
                 ok = got == want
             if not ok:
-                if want.startswith('item val') and (got.startswith('item val') and got.split()[2] == want.split()[2]
-                                                    or 'raised' in got and got != 'item raised KeyError'):
+                if want == 'item raised LoadError' or want.startswith('item val') and (
+                        got.startswith('item val') and got.split()[2] == want.split()[2]
+                        or 'raised' in got and got != 'item raised KeyError'):
                     self.expect_access(got, want, ln, 'C12:access-through-map')
-                    if got.startswith('item val'):
+                    if got.startswith('item val') or got == 'item raised LoadError':
                         return          # which load produced the value is C12's observable, not C11's
+                if want == 'item stuck' and got == 'item raised LoadError':
+                    self.fail('C12:loaded-again-without-clear', f'{ln}: the intermediate handle is cached, '
+                              f'load() must not run: required `{want}`, implementation gave `{got}`')
+                    return
                 if want == 'item stuck' and 'raised' in got and got != 'item raised KeyError':
                     # the intermediate handle had to be loaded and returned: its access raised
                     self.fail('C12:access-raised', f'{ln}: loading the intermediate handle must not inspect the '
@@ -500,16 +535,17 @@ class Spec:
                     return ('smap', sn.subs[k]) if k in sn.subs else None
                 r = self.chain(s, ks, step)
                 if r == 'raised':
-                    want, ok = 'sitem raised <some exception>', got.startswith('sitem raised ')
+                    want, ok = 'sitem raised <some exception>', \
+                        got.startswith('sitem raised ') and got != 'sitem raised LoadError'
                     sig = 'C17:absent-names'
                 elif isinstance(r, ASnap):
                     want, ok, sig = 'sitem smap', got == 'sitem smap', 'C17:mirror-item'
                 else:
                     want, sig = 'sitem ' + r, 'C17:mirror-item'
                     ok = got == want
-                    if not ok and want.startswith('sitem val') and (
+                    if not ok and (want == 'sitem raised LoadError' or want.startswith('sitem val') and (
                             got.startswith('sitem val') and got.split()[2:3] == want.split()[2:3]
-                            or got.startswith('sitem raised')):
+                            or got.startswith('sitem raised'))):
                         self.expect_access(got, want, ln, 'C12:access-through-static-map')
                 if not ok:
                     self.fail(sig, f'{ln}: required `{want}`, implementation gave `{got}`')
